@@ -582,7 +582,9 @@ static void runCase(const CtxView& cv, const std::string& text, Syntax syn, cons
     const std::string v = !vok ? "fail" : vc == rslang::ValueClass::value ? "value" : vc == rslang::ValueClass::props ? "props" : "invalid";
     return "ok " + type + " e=" + errList(aud.Errors().All(), 0, n1) + " a=" + args + " v=" + v + " ve=" + errList(aud.Errors().All(), n1, aud.Errors().All().size());
   });
-  emit("c03 check " + wire, res);
+  // the one input class of the recorded finding C03-recursion-deduction-bound has its own op name (the specification
+  // column demands acceptance there: Properties/C03 recursion_needs_bound_counterexample shows the input typable)
+  emit(std::string(cls == "K12:recursion-bound" ? "c03 check-recbound " : "c03 check ") + wire, res);
   ++hist["class:" + cls];
   if (res.rfind("fault:", 0) == 0) { ++hist["verdict:fault"]; ++hist["fault:" + cls]; return; }
   if (res.rfind("ok ", 0) == 0) { ++hist["verdict:ok"]; }
@@ -782,7 +784,7 @@ static const Fixed CORPUS[] = {
   { "{1, debool(C1)}", "fixed", false }, { "{debool(C1), 1}", "fixed", false }, { "Z\xE2\x88\xAA" "C1", "fixed", false }, { "C1\xE2\x88\xAAZ", "fixed", false }, { "1\xE2\x88\x88" "C1", "fixed", false },
   // type deduction of a recursion variable that needs more rounds than typeDeductionDepth (Properties/C03
   // recursion_needs_bound_counterexample: typable by the rules, rejected by ViRecursion); one component less is accepted
-  { "R{a:=(1,1,1,1,1,1) | (S4, pr1(a), pr2(a), pr3(a), pr4(a), pr5(a))}", "fixed", false },
+  { "R{a:=(1,1,1,1,1,1) | (S4, pr1(a), pr2(a), pr3(a), pr4(a), pr5(a))}", "K12:recursion-bound", true },
   { "R{a:=(1,1,1,1,1) | (S4, pr1(a), pr2(a), pr3(a), pr4(a))}", "fixed", false },
   // completeness corners of filters and template calls (check_complete_partial2)
   { "Fi1,2[S1](S1)", "fixed", false }, { "Fi1[X1](\xE2\x88\x85)", "fixed", false }, { "Fi1[S1](S1)", "fixed", false },
